@@ -709,17 +709,17 @@ Lemma ev_rep_fail g f a e pos rest :
   ev g f a e pos rest = RFail -> ev g (S f) a (PRep e) pos rest = ROk pos rest [].
 Proof. intros H. rewrite ev_S. cbn [ev_step]. rewrite H. reflexivity. Qed.
 
-Lemma fails_on_ident_S g d e :
-  fails_on_ident g (S d) e =
+Lemma fails_at_S P g d e :
+  fails_at P g (S d) e =
   match e with
-  | PStr (c :: _) => if is_ident_byte c then None else Some 1
-  | PSeq a _ => match fails_on_ident g (S d) a with Some n => Some (S n) | None => None end
-  | PAlt a b => match fails_on_ident g (S d) a, fails_on_ident g (S d) b with
+  | PStr (c :: _) => if P c then None else Some 1
+  | PSeq a _ => match fails_at P g (S d) a with Some n => Some (S n) | None => None end
+  | PAlt a b => match fails_at P g (S d) a, fails_at P g (S d) b with
                 | Some n, Some m => Some (S (Nat.max n m))
                 | _, _ => None
                 end
   | PId name => match lookup g name with
-                | Some (_, body) => match fails_on_ident g d body with
+                | Some (_, body) => match fails_at P g d body with
                                     | Some n => Some (S n)
                                     | None => None
                                     end
@@ -729,59 +729,67 @@ Lemma fails_on_ident_S g d e :
   end.
 Proof. destruct e; reflexivity. Qed.
 
-Lemma fails_on_ident_sound g : forall d e n,
-  fails_on_ident g d e = Some n ->
-  forall fuel, n <= fuel -> forall a pos b r, is_ident_byte b = true ->
-  ev g fuel a e pos (b :: r) = RFail.
+Lemma fails_at_sound P g : forall d e n,
+  fails_at P g d e = Some n ->
+  forall fuel, n <= fuel -> forall a pos rest, head_ok P rest = true ->
+  ev g fuel a e pos rest = RFail.
 Proof.
   induction d as [|d IHd]; [discriminate|].
-  induction e; intros n0 Hn fuel Hf a pos b r Hb; rewrite fails_on_ident_S in Hn;
+  induction e; intros n0 Hn fuel Hf a pos rest Hb; rewrite fails_at_S in Hn;
     try discriminate.
   - (* PStr *)
     destruct s as [|c s]; [discriminate|].
-    destruct (is_ident_byte c) eqn:Hc; [discriminate|]. injection Hn as <-.
+    destruct (P c) eqn:Hc; [discriminate|]. injection Hn as <-.
     destruct fuel as [|fuel]; [lia|]. rewrite ev_S. cbn [ev_step].
-    unfold match_str. cbn [strip_prefix].
+    unfold match_str. cbn [strip_prefix]. destruct rest as [|b r]; [reflexivity|].
+    cbn [head_ok] in Hb.
     destruct (N.eqb_spec c b) as [->|]; [congruence|reflexivity].
   - (* PId *)
     destruct (lookup g name) as [[k body]|] eqn:Hlk; [|discriminate].
-    destruct (fails_on_ident g d body) as [n|] eqn:Hbody; [|discriminate]. injection Hn as <-.
+    destruct (fails_at P g d body) as [n|] eqn:Hbody; [|discriminate]. injection Hn as <-.
     destruct fuel as [|fuel]; [lia|].
     rewrite (ev_call _ _ _ _ _ _ _ _ Hlk).
     rewrite (IHd body n Hbody fuel ltac:(lia)) by assumption. reflexivity.
   - (* PSeq *)
-    destruct (fails_on_ident g (S d) e1) as [n|] eqn:H1; [|discriminate]. injection Hn as <-.
+    destruct (fails_at P g (S d) e1) as [n|] eqn:H1; [|discriminate]. injection Hn as <-.
     destruct fuel as [|fuel]; [lia|].
     rewrite ev_seq, (IHe1 n eq_refl fuel ltac:(lia)) by assumption. reflexivity.
   - (* PAlt *)
-    destruct (fails_on_ident g (S d) e1) as [n|] eqn:H1; [|discriminate].
-    destruct (fails_on_ident g (S d) e2) as [m|] eqn:H2; [|discriminate]. injection Hn as <-.
+    destruct (fails_at P g (S d) e1) as [n|] eqn:H1; [|discriminate].
+    destruct (fails_at P g (S d) e2) as [m|] eqn:H2; [|discriminate]. injection Hn as <-.
     destruct fuel as [|fuel]; [lia|]. rewrite ev_S. cbn [ev_step].
     rewrite (IHe1 n eq_refl fuel ltac:(lia)), (IHe2 m eq_refl fuel ltac:(lia)) by assumption.
     reflexivity.
 Qed.
 
-(* WHITESPACE* ~ (COMMENT ~ WHITESPACE* )* consumes nothing in front of an identifier byte *)
-Lemma skip_ident g sf :
-  skip_fuel g = Some sf ->
-  forall fuel, sf <= fuel -> forall a pos b r, is_ident_byte b = true ->
-  skip_with (ev g fuel) g a pos (b :: r) = ROk pos (b :: r) [].
+(* WHITESPACE* ~ (COMMENT ~ WHITESPACE* )* consumes nothing at the end of input and in front of
+   a byte of class P *)
+Lemma skip_at P g sf :
+  skip_fuel_at P g = Some sf ->
+  forall fuel, sf <= fuel -> forall a pos rest, head_ok P rest = true ->
+  skip_with (ev g fuel) g a pos rest = ROk pos rest [].
 Proof.
-  unfold skip_fuel. intros Hs fuel Hf a pos b r Hb.
+  unfold skip_fuel_at. intros Hs fuel Hf a pos rest Hb.
   destruct (has_rule g "WHITESPACE") eqn:Hw; [|discriminate].
   destruct (has_rule g "COMMENT") eqn:Hc; [|discriminate]. cbn [andb] in Hs.
-  destruct (fails_on_ident g 3 (PId "WHITESPACE")) as [nw|] eqn:Hnw; [|discriminate].
-  destruct (fails_on_ident g 3 (PId "COMMENT")) as [nc|] eqn:Hnc; [|discriminate].
+  destruct (fails_at P g 3 (PId "WHITESPACE")) as [nw|] eqn:Hnw; [|discriminate].
+  destruct (fails_at P g 3 (PId "COMMENT")) as [nc|] eqn:Hnc; [|discriminate].
   injection Hs as <-.
   destruct a; try reflexivity. cbn [skip_with]. unfold skip_peg. rewrite Hw, Hc.
   destruct fuel as [|[|[|fuel]]]; try lia.
   rewrite ev_seq.
-  rewrite ev_rep_fail by (eapply fails_on_ident_sound; [eassumption|lia|assumption]).
+  rewrite ev_rep_fail by (eapply fails_at_sound; [eassumption|lia|assumption]).
   rewrite bind_ok_nil. cbn [skip_with]. rewrite bind_ok_nil.
   rewrite ev_rep_fail; [reflexivity|].
   rewrite ev_seq.
-  erewrite fails_on_ident_sound; [reflexivity|eassumption|lia|assumption].
+  erewrite fails_at_sound; [reflexivity|eassumption|lia|assumption].
 Qed.
+
+Lemma skip_ident g sf :
+  skip_fuel g = Some sf ->
+  forall fuel, sf <= fuel -> forall a pos b r, is_ident_byte b = true ->
+  skip_with (ev g fuel) g a pos (b :: r) = ROk pos (b :: r) [].
+Proof. intros Hs fuel Hf a pos b r Hb. eapply skip_at; eassumption. Qed.
 
 (* ================================================================================ *)
 (** * 7. Names: function_name and alias_name *)
@@ -1109,7 +1117,7 @@ Module RealGrammarExamples.
   Definition nl : string := String (ascii_of_nat 10) "".
 
   Example ex_program :
-    parse grammar 10000 "program" (bs "fn main() { }")
+    parse grammar 2000 "program" (bs "fn main() { }")
     = Succ 13
         [PNode "program" 0 13
            [PNode "item" 0 13
@@ -1122,11 +1130,11 @@ Module RealGrammarExamples.
   Proof. vm_compute. reflexivity. Qed.
 
   Example ex_identifier :
-    parse grammar 10000 "identifier" (bs "abc_1 x") = Succ 5 [PNode "identifier" 0 5 []].
+    parse grammar 2000 "identifier" (bs "abc_1 x") = Succ 5 [PNode "identifier" 0 5 []].
   Proof. vm_compute. reflexivity. Qed.
 
   Example ex_ty :
-    parse grammar 10000 "ty" (bs "(u8, bool)")
+    parse grammar 2000 "ty" (bs "(u8, bool)")
     = Succ 10
         [PNode "ty" 0 10
            [PNode "tuple_type" 0 10
@@ -1136,7 +1144,7 @@ Module RealGrammarExamples.
 
   (* no blanks at all, a line comment before the closing brace *)
   Example ex_comment_tight :
-    parse grammar 10000 "program" (bs ("fn main(){let x:u8=1;//c" ++ nl ++ "}"))
+    parse grammar 2000 "program" (bs ("fn main(){let x:u8=1;//c" ++ nl ++ "}"))
     = Succ 26
         [PNode "program" 0 26
            [PNode "item" 0 26
@@ -1158,7 +1166,7 @@ Module RealGrammarExamples.
 
   (* leading / trailing blanks and block comments: `program` spans everything, `item` does not *)
   Example ex_comment_around :
-    parse grammar 10000 "program" (bs " /* x */ fn /*y*/ main() { } ")
+    parse grammar 2000 "program" (bs " /* x */ fn /*y*/ main() { } ")
     = Succ 29
         [PNode "program" 0 29
            [PNode "item" 9 28
@@ -1172,23 +1180,23 @@ Module RealGrammarExamples.
 
   (* compound-atomic: inner witness_name node, no blank allowed after `witness::` *)
   Example ex_witness :
-    parse grammar 10000 "single_expression" (bs "witness::A")
+    parse grammar 2000 "single_expression" (bs "witness::A")
     = Succ 10 [PNode "single_expression" 0 10
                  [PNode "witness_expr" 0 10 [PNode "witness_name" 9 10 []]]].
   Proof. vm_compute. reflexivity. Qed.
 
   Example ex_witness_blank :
-    parse grammar 10000 "single_expression" (bs "witness:: A")
+    parse grammar 2000 "single_expression" (bs "witness:: A")
     = Succ 7 [PNode "single_expression" 0 7
                 [PNode "variable_expr" 0 7 [PNode "identifier" 0 7 []]]].
   Proof. vm_compute. reflexivity. Qed.
 
   Example ex_witness_program_blank :
-    parse grammar 10000 "program" (bs "fn main() { let x: u8 = witness:: A; }") = Fail.
+    parse grammar 2000 "program" (bs "fn main() { let x: u8 = witness:: A; }") = Fail.
   Proof. vm_compute. reflexivity. Qed.
 
   Example ex_jet :
-    parse grammar 10000 "single_expression" (bs "jet::add_8(a, b)")
+    parse grammar 2000 "single_expression" (bs "jet::add_8(a, b)")
     = Succ 16
         [PNode "single_expression" 0 16
            [PNode "call_expr" 0 16
@@ -1204,21 +1212,444 @@ Module RealGrammarExamples.
 
   (* reserved words as proper prefixes of names (the former defect D7) *)
   Example ex_true_x :
-    parse grammar 10000 "single_expression" (bs "true_x")
+    parse grammar 2000 "single_expression" (bs "true_x")
     = Succ 6 [PNode "single_expression" 0 6
                 [PNode "variable_expr" 0 6 [PNode "identifier" 0 6 []]]].
   Proof. vm_compute. reflexivity. Qed.
 
   Example ex_alias_fee :
-    parse grammar 10000 "ty" (bs "Fee")
+    parse grammar 2000 "ty" (bs "Fee")
     = Succ 3 [PNode "ty" 0 3 [PNode "alias_name" 0 3 [PNode "identifier" 0 3 []]]].
   Proof. vm_compute. reflexivity. Qed.
 
   Example ex_u16_u1 :
-    parse grammar 10000 "ty" (bs "u16") = Succ 3 [PNode "ty" 0 3 [PNode "unsigned_type" 0 3 []]]
-    /\ parse grammar 10000 "ty" (bs "u1") = Succ 2 [PNode "ty" 0 2 [PNode "unsigned_type" 0 2 []]].
+    parse grammar 2000 "ty" (bs "u16") = Succ 3 [PNode "ty" 0 3 [PNode "unsigned_type" 0 3 []]]
+    /\ parse grammar 2000 "ty" (bs "u1") = Succ 2 [PNode "ty" 0 2 [PNode "unsigned_type" 0 2 []]].
   Proof. vm_compute. auto. Qed.
 
   Example ex_out_of_fuel : parse grammar 5 "program" (bs "fn main() { }") = OutOfFuel.
   Proof. vm_compute. reflexivity. Qed.
 End RealGrammarExamples.
+
+(* ================================================================================ *)
+(** * 10. Word positions: variables in expressions and patterns *)
+
+Definition T_ok (T : N -> bool) : Prop := forall c, T c = true -> is_ident_byte c = false.
+
+Lemma head_ok_boundary T tail : T_ok T -> head_ok T tail = true -> boundary tail = true.
+Proof.
+  intros HT. destruct tail as [|c tail]; cbn; [reflexivity|].
+  intros H. rewrite (HT c H). reflexivity.
+Qed.
+
+(* meaning of the three facts computed by PegShape.ana *)
+Definition sem_fail (T : N -> bool) (g : grammar_t) (e : peg) (W : list (list N)) (n : nat) : Prop :=
+  forall s tail, ident_word s = true -> head_ok T tail = true -> mem_bytes s W = false ->
+  forall fuel, n + List.length s <= fuel -> forall a pos,
+    ev g fuel a e pos (s ++ tail) = RFail.
+
+Definition sem_exact (T : N -> bool) (g : grammar_t) (e : peg) (W : list (list N)) (n : nat) : Prop :=
+  forall s tail, ident_word s = true -> head_ok T tail = true -> mem_bytes s W = false ->
+  forall fuel, n + List.length s <= fuel -> forall a pos,
+    ev g fuel a e pos (s ++ tail) = RFail
+    \/ exists t, ev g fuel a e pos (s ++ tail) = ROk (pos + List.length s) tail t.
+
+Definition sem_nop (T : N -> bool) (g : grammar_t) (e : peg) (W : list (list N)) (n : nat) : Prop :=
+  forall s tail, ident_word s = true -> head_ok T tail = true -> mem_bytes s W = false ->
+  forall fuel, n + List.length s <= fuel -> forall a pos,
+    ev g fuel a e pos (s ++ tail) = ROk pos (s ++ tail) [].
+
+Definition ana_ok (T : N -> bool) (g : grammar_t) (e : peg) (r : ana_res) : Prop :=
+  (forall W n, aF r = Some (W, n) -> sem_fail T g e W n) /\
+  (forall W n, aX r = Some (W, n) -> sem_exact T g e W n) /\
+  (forall W n, aZ r = Some (W, n) -> sem_nop T g e W n).
+
+Lemma ana_ok_none T g e : ana_ok T g e ana_none.
+Proof. repeat split; cbn; discriminate. Qed.
+
+Lemma sem_fail_exact T g e W n : sem_fail T g e W n -> sem_exact T g e W n.
+Proof. intros H s tail Hs Ht Hm fuel Hf a pos. left. apply H; assumption. Qed.
+
+Lemma ana_ok_fail T g e f :
+  (forall W n, f = Some (W, n) -> sem_fail T g e W n) -> ana_ok T g e (ana_fail f).
+Proof.
+  intros H. repeat split; cbn; try discriminate.
+  - exact H.
+  - intros W n Hf. apply sem_fail_exact, H, Hf.
+Qed.
+
+Lemma mem_bytes_app s W1 W2 :
+  mem_bytes s (W1 ++ W2) = false -> mem_bytes s W1 = false /\ mem_bytes s W2 = false.
+Proof. unfold mem_bytes. rewrite existsb_app. apply orb_false_iff. Qed.
+
+Lemma ana_S T g d e :
+  ana T g (S d) e =
+  match e with
+  | PStr l => ana_fail (lit_fails T l)
+  | PAlt a b =>
+    let ra := ana T g (S d) a in let rb := ana T g (S d) b in
+    mk_ana (comb (aF ra) (aF rb)) (comb (aX ra) (aX rb)) None
+  | PRep x => mk_ana None None (bump (aF (ana T g (S d) x)))
+  | PSeq a b =>
+    let ra := ana T g (S d) a in
+    match aF ra with
+    | Some (W, n) => ana_fail (Some (W, S n))
+    | None =>
+      match aZ ra with
+      | Some (W1, n1) =>
+        match aF (ana T g (S d) b), skip_fuel g with
+        | Some (W2, n2), Some sf =>
+          ana_fail (Some ((W1 ++ W2)%list, S (Nat.max n1 (Nat.max n2 sf))))
+        | _, _ => ana_none
+        end
+      | None =>
+        match aX ra, fails_at T g 4 b, skip_fuel_at T g with
+        | Some (W, n), Some m, Some sf => ana_fail (Some (W, S (Nat.max n (Nat.max m sf))))
+        | _, _, _ => ana_none
+        end
+      end
+    end
+  | PId name =>
+    match lookup g name with
+    | Some (k, body) =>
+      if kw_rule_ok g name then
+        match kw_lits g name with
+        | Some (ls, n) => mk_ana (Some (ls, n + 6)) (Some ([], n + 6)) None
+        | None => ana_none
+        end
+      else if (name =? "function_name") && function_name_ok g then
+        match kw_lits g "builtin_function", skip_fuel g with
+        | Some (_, n), Some sf => mk_ana None (Some ([], n + sf + 12)) None
+        | _, _ => ana_none
+        end
+      else let r := ana T g d body in mk_ana (bump (aF r)) (bump (aX r)) None
+    | None =>
+      if name =? "ASCII_DIGIT" then ana_fail (Some ([], 1)) else ana_none
+    end
+  | _ => ana_none
+  end.
+Proof. destruct e; reflexivity. Qed.
+
+Lemma ident_word_cons s : ident_word s = true ->
+  exists b s', s = b :: s' /\ is_alpha_byte b = true /\ is_ident_byte b = true.
+Proof.
+  destruct s as [|b s']; [discriminate|]. cbn. intros H.
+  apply andb_true_iff in H as [Hb _]. exists b, s'. auto using alpha_is_ident.
+Qed.
+
+Lemma lit_fails_sound T g l W n :
+  T_ok T -> lit_fails T l = Some (W, n) -> sem_fail T g (PStr l) W n.
+Proof.
+  intros HT Hl s tail Hs Ht Hm fuel Hf a pos.
+  pose proof (head_ok_boundary T tail HT Ht) as Hbt.
+  destruct l as [|c l']; [discriminate|].
+  assert (Hn : 1 <= fuel).
+  { cbn [lit_fails] in Hl. destruct (is_alpha_byte c); [|injection Hl as <- <-; lia].
+    destruct (after_run (c :: l')) as [|p q]; [discriminate|].
+    destruct (T p); injection Hl as <- <-; lia. }
+  destruct fuel as [|fuel]; [lia|]. rewrite ev_S. cbn [ev_step]. unfold match_str.
+  destruct (strip_prefix (c :: l') (s ++ tail)) as [r|] eqn:Hsp; [exfalso|reflexivity].
+  apply strip_prefix_inv in Hsp.
+  destruct (ident_word_cons s Hs) as (b & s' & Hs' & Hab & _).
+  cbn [lit_fails] in Hl. destruct (is_alpha_byte c) eqn:Hc.
+  - destruct (after_run (c :: l')) as [|p q] eqn:Hafter; [discriminate|].
+    pose proof (boundary_after_run (c :: l')) as Hbp. rewrite Hafter in Hbp.
+    pose proof (run_split (c :: l')) as Hsplit. rewrite Hafter in Hsplit.
+    rewrite Hsplit, <- app_assoc in Hsp.
+    destruct (ident_word_run s tail Hs Hbt) as (_ & Hrun & Hafter_s).
+    assert (Hb2 : boundary ((p :: q) ++ r) = true) by exact Hbp.
+    destruct (run_unique (ident_run (c :: l')) ((p :: q) ++ r) (ident_run_all _) Hb2) as [Hr1 Hr2].
+    rewrite <- Hsp in Hr1, Hr2. rewrite Hrun in Hr1. rewrite Hafter_s in Hr2.
+    (* s = ident_run l and tail = p :: .. *)
+    subst tail. cbn [head_ok app] in Ht.
+    destruct (T p); [|discriminate].
+    injection Hl as <- <-. rewrite Hr1 in Hm. cbn in Hm.
+    rewrite (proj2 (bytes_eqb_eq _ _) eq_refl) in Hm. discriminate.
+  - subst s. cbn in Hsp. injection Hsp as Hcb _. congruence.
+Qed.
+
+Lemma alpha_not_digit b : is_alpha_byte b = true -> in_range 48 57 b = false.
+Proof.
+  unfold is_alpha_byte, in_range. intros H.
+  destruct (N.leb_spec 48 b), (N.leb_spec b 57); cbn; try reflexivity.
+  destruct (N.leb_spec 97 b), (N.leb_spec b 122), (N.leb_spec 65 b), (N.leb_spec b 90);
+    cbn in H; try discriminate; lia.
+Qed.
+
+Lemma bump_inv x W n : bump x = Some (W, n) -> exists n', x = Some (W, n') /\ n = S n'.
+Proof. destruct x as [[W' n']|]; cbn; [|discriminate]. intros H; injection H as <- <-. eauto. Qed.
+
+Lemma comb_inv x y W n :
+  comb x y = Some (W, n) ->
+  exists W1 n1 W2 n2, x = Some (W1, n1) /\ y = Some (W2, n2)
+                      /\ W = (W1 ++ W2)%list /\ n = S (Nat.max n1 n2).
+Proof.
+  destruct x as [[W1 n1]|], y as [[W2 n2]|]; cbn; try discriminate.
+  intros H; injection H as <- <-. eauto 10.
+Qed.
+
+(* soundness of the abstract interpreter *)
+Lemma ana_sound T g :
+  T_ok T -> ident_char_ok g = true -> forall d e, ana_ok T g e (ana T g d e).
+Proof.
+  intros HT Hic. induction d as [|d IHd]; [intros; apply ana_ok_none|].
+  induction e; rewrite ana_S; try apply ana_ok_none.
+  - (* PStr *)
+    apply ana_ok_fail. intros W n H. eapply lit_fails_sound; eassumption.
+  - (* PId *)
+    destruct (lookup g name) as [[k body]|] eqn:Hlk.
+    + destruct (kw_rule_ok g name) eqn:Hkw.
+      { destruct (kw_rule_ok_inv _ _ Hkw) as (ls & n & Hl & Hok & Hio). rewrite Hl.
+        repeat split; cbn [aF aX aZ]; try discriminate.
+        - intros W n0 H; injection H as <- <-. intros s tail Hs Ht Hm fuel Hf a pos.
+          pose proof (head_ok_boundary T tail HT Ht) as Hbt.
+          destruct (ident_word_run s tail Hs Hbt) as (_ & Hrun & Hafter).
+          rewrite (keyword_rule_run_spec g name ls n Hic Hl Hok Hio) by lia.
+          unfold kw_run_result. rewrite Hrun, Hm. reflexivity.
+        - intros W n0 H; injection H as <- <-. intros s tail Hs Ht Hm fuel Hf a pos.
+          pose proof (head_ok_boundary T tail HT Ht) as Hbt.
+          destruct (ident_word_run s tail Hs Hbt) as (_ & Hrun & Hafter).
+          rewrite (keyword_rule_run_spec g name ls n Hic Hl Hok Hio) by lia.
+          unfold kw_run_result. rewrite Hrun, Hafter.
+          destruct (mem_bytes s ls); [right; eexists; reflexivity | left; reflexivity]. }
+      destruct ((name =? "function_name") && function_name_ok g)%bool eqn:Hfn.
+      { apply andb_true_iff in Hfn as [Hname Hfok]. apply String.eqb_eq in Hname. subst name.
+        destruct (kw_lits g "builtin_function") as [[ls n]|] eqn:Hl; [|apply ana_ok_none].
+        destruct (skip_fuel g) as [sf|] eqn:Hsf; [|apply ana_ok_none].
+        repeat split; cbn [aF aX aZ]; try discriminate.
+        intros W n0 H; injection H as <- <-. intros s tail Hs Ht Hm fuel Hf a pos.
+        pose proof (head_ok_boundary T tail HT Ht) as Hbt.
+        destruct (ident_word_run s tail Hs Hbt) as (Hsa & Hrun & Hafter).
+        rewrite (function_name_spec g ls n sf Hfok Hl Hsf fuel a pos (s ++ tail) Hsa)
+          by (rewrite Hrun; lia).
+        rewrite Hrun, Hafter.
+        destruct (mem_bytes s ls); [left; reflexivity | right; eexists; reflexivity]. }
+      destruct (IHd body) as (HF & HX & _).
+      repeat split; cbn [aF aX aZ]; try discriminate.
+      * intros W n0 H. apply bump_inv in H as (n' & H & ->).
+        intros s tail Hs Ht Hm fuel Hf a pos. destruct fuel as [|fuel]; [lia|].
+        rewrite (ev_call _ _ _ _ _ _ _ _ Hlk).
+        rewrite (HF W n' H s tail Hs Ht Hm fuel) by lia. reflexivity.
+      * intros W n0 H. apply bump_inv in H as (n' & H & ->).
+        intros s tail Hs Ht Hm fuel Hf a pos. destruct fuel as [|fuel]; [lia|].
+        rewrite (ev_call _ _ _ _ _ _ _ _ Hlk).
+        destruct (HX W n' H s tail Hs Ht Hm fuel ltac:(lia) (inner_mode name k a) pos)
+          as [-> | [t ->]]; [left; reflexivity | right; eexists; reflexivity].
+    + destruct (String.eqb_spec name "ASCII_DIGIT") as [->|]; [|apply ana_ok_none].
+      apply ana_ok_fail. intros W n H; injection H as <- <-.
+      intros s tail Hs Ht Hm fuel Hf a pos. destruct fuel as [|fuel]; [lia|].
+      rewrite ev_S. cbn [ev_step]. rewrite Hlk.
+      change (builtin "ASCII_DIGIT" a pos (s ++ tail))
+        with (match_ranges [(48, 57)]%N pos (s ++ tail)).
+      rewrite match_ranges_ascii by reflexivity.
+      destruct (ident_word_cons s Hs) as (b & s' & -> & Hab & _).
+      cbn [app existsb fst snd]. rewrite (alpha_not_digit b Hab). reflexivity.
+  - (* PRep *)
+    destruct IHe as (HF & _ & _).
+    repeat split; cbn [aF aX aZ]; try discriminate.
+    intros W n H. apply bump_inv in H as (n' & H & ->).
+    intros s tail Hs Ht Hm fuel Hf a pos. destruct fuel as [|fuel]; [lia|].
+    apply ev_rep_fail. apply (HF W n' H); (assumption || lia).
+  - (* PSeq *)
+    destruct IHe1 as (HF1 & HX1 & HZ1). destruct IHe2 as (HF2 & _ & _).
+    cbn zeta.
+    destruct (aF (ana T g (S d) e1)) as [[W n]|] eqn:E1.
+    { apply ana_ok_fail. intros W0 n0 H; injection H as <- <-.
+      intros s tail Hs Ht Hm fuel Hf a pos. destruct fuel as [|fuel]; [lia|].
+      rewrite ev_seq. rewrite (HF1 W n eq_refl s tail Hs Ht Hm fuel) by lia. reflexivity. }
+    destruct (aZ (ana T g (S d) e1)) as [[W1 n1]|] eqn:EZ.
+    { destruct (aF (ana T g (S d) e2)) as [[W2 n2]|] eqn:E2; [|apply ana_ok_none].
+      destruct (skip_fuel g) as [sf|] eqn:Hsf; [|apply ana_ok_none].
+      apply ana_ok_fail. intros W0 n0 H; injection H as <- <-.
+      intros s tail Hs Ht Hm fuel Hf a pos. destruct fuel as [|fuel]; [lia|].
+      apply mem_bytes_app in Hm as [Hm1 Hm2].
+      rewrite ev_seq. rewrite (HZ1 W1 n1 eq_refl s tail Hs Ht Hm1 fuel) by lia.
+      rewrite bind_ok_nil.
+      destruct (ident_word_cons s Hs) as (b & s' & Hs' & _ & Hib).
+      assert (Hsk : skip_with (ev g fuel) g a pos (s ++ tail) = ROk pos (s ++ tail) []).
+      { rewrite Hs'. cbn [app]. apply (skip_ident g sf Hsf); [lia|assumption]. }
+      rewrite Hsk, bind_ok_nil.
+      apply (HF2 W2 n2 eq_refl); (assumption || lia). }
+    destruct (aX (ana T g (S d) e1)) as [[W n]|] eqn:EX; [|apply ana_ok_none].
+    destruct (fails_at T g 4 e2) as [m|] eqn:Hm2; [|apply ana_ok_none].
+    destruct (skip_fuel_at T g) as [sf|] eqn:Hsf; [|apply ana_ok_none].
+    apply ana_ok_fail. intros W0 n0 H; injection H as <- <-.
+    intros s tail Hs Ht Hm fuel Hf a pos. destruct fuel as [|fuel]; [lia|].
+    rewrite ev_seq.
+    destruct (HX1 W n eq_refl s tail Hs Ht Hm fuel ltac:(lia) a pos) as [-> | [t ->]];
+      [reflexivity|].
+    cbn [bind]. rewrite (skip_at T g sf Hsf) by (assumption || lia). cbn [bind].
+    rewrite (fails_at_sound T g 4 e2 m Hm2) by (assumption || lia). reflexivity.
+  - (* PAlt *)
+    destruct IHe1 as (HF1 & HX1 & _). destruct IHe2 as (HF2 & HX2 & _).
+    cbn zeta. repeat split; cbn [aF aX aZ]; try discriminate.
+    + intros W n H. apply comb_inv in H as (W1 & n1 & W2 & n2 & H1 & H2 & -> & ->).
+      intros s tail Hs Ht Hm fuel Hf a pos. destruct fuel as [|fuel]; [lia|].
+      apply mem_bytes_app in Hm as [Hm1 Hm2].
+      rewrite ev_S. cbn [ev_step].
+      rewrite (HF1 W1 n1 H1 s tail Hs Ht Hm1 fuel) by lia.
+      apply (HF2 W2 n2 H2); (assumption || lia).
+    + intros W n H. apply comb_inv in H as (W1 & n1 & W2 & n2 & H1 & H2 & -> & ->).
+      intros s tail Hs Ht Hm fuel Hf a pos. destruct fuel as [|fuel]; [lia|].
+      apply mem_bytes_app in Hm as [Hm1 Hm2].
+      rewrite ev_S. cbn [ev_step].
+      destruct (HX1 W1 n1 H1 s tail Hs Ht Hm1 fuel ltac:(lia) a pos) as [-> | [t ->]].
+      * apply (HX2 W2 n2 H2); (assumption || lia).
+      * right. eexists. reflexivity.
+Qed.
+
+Lemma alt_pre_ev g inner : forall e pre k,
+  alt_pre inner e = Some (pre, k) ->
+  forall f a pos rest r,
+    ev g f a pre pos rest = RFail ->
+    ev g f a (PId inner) pos rest = r ->
+    (exists p q t, r = ROk p q t) ->
+    ev g (S (k + f)) a e pos rest = r.
+Proof.
+  induction e; intros pre k H; try discriminate.
+  cbn [alt_pre] in H.
+  assert (Hcases :
+    (exists v, e2 = PId v /\ (v =? inner) = true /\ pre = e1 /\ k = 0)
+    \/ (exists k', alt_pre inner e1 = Some (pre, k') /\ k = S k')).
+  { destruct (alt_pre inner e1) as [[pre' k']|] eqn:Hd.
+    - destruct e2; try (right; injection H as <- <-; eauto).
+      destruct (name =? inner) eqn:Hv.
+      + left. injection H as <- <-. eauto 6.
+      + right. injection H as <- <-. eauto.
+    - destruct e2; try discriminate.
+      destruct (name =? inner) eqn:Hv; [|discriminate].
+      left. injection H as <- <-. eauto 6. }
+  intros f a pos rest r Hpre Hin Hok.
+  destruct Hcases as [(v & -> & Hv & -> & ->) | (k' & Hd & ->)].
+  - apply String.eqb_eq in Hv. subst v. cbn [plus]. rewrite ev_S. cbn [ev_step].
+    rewrite Hpre. exact Hin.
+  - rewrite ev_S. cbn [ev_step].
+    replace (S k' + f) with (S (k' + f)) by lia.
+    rewrite (IHe1 pre k' Hd f a pos rest r Hpre Hin Hok).
+    destruct Hok as (p & q & t & ->). reflexivity.
+Qed.
+
+Definition word_nodes (a : atomicity) (outer inner : string) (start stop : nat) : list ptree :=
+  if is_atomic a then []
+  else [PNode outer start stop [PNode inner start stop [PNode "identifier" start stop []]]].
+
+(* If rule [outer] is a choice containing the alternative  inner = { identifier }  and the
+   abstract interpreter shows that everything tried before it fails on non-reserved words, then
+   every word s outside the reserved list W, followed by the end of input or a T byte, is parsed
+   by [outer] as  outer(inner(identifier))  spanning exactly s. *)
+Theorem word_position_spec T g outer inner W n :
+  T_ok T -> word_position T g outer inner = Some (W, n) ->
+  forall s tail, ident_word s = true -> head_ok T tail = true -> mem_bytes s W = false ->
+  forall fuel, n + List.length s <= fuel -> forall a pos,
+    ev g fuel a (PId outer) pos (s ++ tail)
+    = ROk (pos + List.length s) tail
+          (word_nodes a outer inner pos (pos + List.length s)).
+Proof.
+  intros HT Hwp s tail Hs Ht Hm fuel Hf a pos.
+  unfold word_position in Hwp.
+  destruct (lookup g outer) as [[ko body]|] eqn:Hlo; [|discriminate].
+  destruct ko; try discriminate.
+  destruct (alt_pre inner body) as [[pre k]|] eqn:Hap; [|discriminate].
+  match type of Hwp with (if ?c then _ else _) = _ => destruct c eqn:Hc end; [|discriminate].
+  repeat match goal with
+         | H : (_ && _)%bool = true |- _ => apply andb_true_iff in H as [H ?]
+         end.
+  destruct (aF (ana T g 6 pre)) as [[W' n']|] eqn:Hana; [|discriminate].
+  injection Hwp as <- <-.
+  apply rule_is_lookup in Hc.
+  match goal with H : negb (special outer) = true |- _ => apply negb_true_iff in H; rename H into Hso end.
+  match goal with H : negb (special inner) = true |- _ => apply negb_true_iff in H; rename H into Hsi end.
+  assert (Hic : ident_char_ok g = true) by assumption.
+  assert (Hid : identifier_shape_ok g "identifier" = true) by assumption.
+  pose proof (head_ok_boundary T tail HT Ht) as Hbt.
+  destruct (ident_word_run s tail Hs Hbt) as (Hsa & Hrun & Hafter).
+  destruct (ana_sound T g HT Hic 6 pre) as (HF & _ & _).
+  (* fuel = S (S (k + f)) with f large enough for pre and for inner *)
+  assert (Hex : exists f, fuel = S (S (k + f)) /\ n' + List.length s <= f /\ 8 + List.length s <= f).
+  { exists (fuel - 2 - k). lia. }
+  destruct Hex as (f & -> & Hf1 & Hf2).
+  rewrite (ev_call _ _ _ _ _ _ _ _ Hlo).
+  assert (Hmode : forall x, special x = false -> inner_mode x RNormal a = a).
+  { intros x Hx. unfold inner_mode. rewrite Hx. reflexivity. }
+  rewrite (Hmode outer Hso). cbn [emits].
+  assert (Hinner : ev g f a (PId inner) pos (s ++ tail)
+                   = ROk (pos + List.length s) tail
+                         (if is_atomic a then []
+                          else [PNode inner pos (pos + List.length s)
+                                      [PNode "identifier" pos (pos + List.length s) []]])).
+  { destruct f as [|f]; [lia|].
+    rewrite (ev_call _ _ _ _ _ _ _ _ Hc). rewrite (Hmode inner Hsi). cbn [emits].
+    rewrite identifier_rule_spec by (assumption || rewrite Hrun; lia).
+    unfold identifier_result. rewrite Hsa, Hrun, Hafter.
+    cbn [wrap_node]. unfold node_of. destruct a; reflexivity. }
+  rewrite (alt_pre_ev g inner body pre k Hap f a pos (s ++ tail) _
+             (HF W' n' Hana s tail Hs Ht Hm f Hf1 a pos) Hinner) by eauto.
+  cbn [wrap_node]. unfold word_nodes. destruct a; reflexivity.
+Qed.
+Print Assumptions word_position_spec.
+
+Lemma expr_terminator_ok : T_ok is_expr_terminator.
+Proof.
+  intros c H. unfold is_expr_terminator in H. apply andb_true_iff in H as [H _].
+  apply negb_true_iff in H. exact H.
+Qed.
+
+Lemma nonident_ok : T_ok is_nonident.
+Proof. intros c H. unfold is_nonident in H. apply negb_true_iff in H. exact H. Qed.
+
+(* the words that cannot be used as a variable in an expression, and the fuel constant *)
+Definition var_reserved : list (list N) :=
+  match word_position is_expr_terminator grammar "single_expression" "variable_expr" with
+  | Some (W, _) => W | None => [] end.
+Definition var_fuel : nat :=
+  match word_position is_expr_terminator grammar "single_expression" "variable_expr" with
+  | Some (_, n) => n | None => 0 end.
+
+(* exactly None, false, true and match *)
+Theorem var_reserved_words : var_reserved = [bs "None"; bs "false"; bs "true"; bs "match"].
+Proof. vm_compute. reflexivity. Qed.
+
+(* VARIABLE POSITION.  In simfony's grammar every word s = [A-Za-z][A-Za-z0-9_]* other than
+   None / false / true / match, followed by the end of input or by a byte that is not an
+   identifier byte, blank, "/", "(", ":" or "!", is parsed by single_expression as the variable
+   s:  single_expression(variable_expr(identifier)) spanning exactly s.  Reserved words that
+   are proper prefixes (true_x, falsey, None_, matchx, Left, Some, unwrap, fold_ ...) and even
+   the builtin function names themselves do not matter. *)
+Theorem variable_expr_opaque s tail fuel a pos :
+  ident_word s = true -> head_ok is_expr_terminator tail = true ->
+  mem_bytes s var_reserved = false ->
+  var_fuel + List.length s <= fuel ->
+  ev grammar fuel a (PId "single_expression") pos (s ++ tail)
+  = ROk (pos + List.length s) tail
+        (word_nodes a "single_expression" "variable_expr" pos (pos + List.length s)).
+Proof.
+  intros Hs Ht Hm Hf.
+  destruct (word_position is_expr_terminator grammar "single_expression" "variable_expr")
+    as [[W n]|] eqn:Hwp; [|exfalso; revert Hwp; vm_compute; discriminate].
+  unfold var_reserved, var_fuel in *. rewrite Hwp in *.
+  eapply word_position_spec; eauto using expr_terminator_ok.
+Qed.
+Print Assumptions variable_expr_opaque.
+
+(* PATTERN POSITION.  Every word, reserved or not, followed by anything but an identifier byte,
+   is parsed by `pattern` as a variable pattern.  (So `let true: bool = ..` and `let match: u8`
+   are grammatical: the pattern grammar reserves no words at all.) *)
+Theorem variable_pattern_opaque s tail fuel a pos :
+  ident_word s = true -> boundary tail = true ->
+  match word_position is_nonident grammar "pattern" "variable_pattern" with
+  | Some (_, n) => n | None => 0 end + List.length s <= fuel ->
+  ev grammar fuel a (PId "pattern") pos (s ++ tail)
+  = ROk (pos + List.length s) tail
+        (word_nodes a "pattern" "variable_pattern" pos (pos + List.length s)).
+Proof.
+  intros Hs Ht Hf.
+  destruct (word_position is_nonident grammar "pattern" "variable_pattern")
+    as [[W n]|] eqn:Hwp; [|exfalso; revert Hwp; vm_compute; discriminate].
+  assert (HW : W = []).
+  { revert Hwp. vm_compute. intros H; injection H as <- _. reflexivity. }
+  subst W.
+  assert (Ht' : head_ok is_nonident tail = true).
+  { destruct tail as [|c tail]; [reflexivity|]. exact Ht. }
+  eapply word_position_spec; eauto using nonident_ok.
+Qed.
+Print Assumptions variable_pattern_opaque.
